@@ -52,8 +52,9 @@ pub enum OpKind {
     Suspend { o: ObjId, h: HandleId },
     Resume { h: HandleId },
     DropResumer { h: HandleId },
-    PipeIn { o: ObjId, s: StreamId, body: Vec<Step> },
-    Pipe { o: ObjId, s: StreamId, depth: usize, out: OutId, body: Vec<Step> },
+    /// `from`: the input is the output stream of an earlier pipe (a chain); `s` then names the virtual stream that records what that output yields
+    PipeIn { o: ObjId, s: StreamId, body: Vec<Step>, #[serde(default)] from: Option<OutId> },
+    Pipe { o: ObjId, s: StreamId, depth: usize, out: OutId, body: Vec<Step>, #[serde(default)] from: Option<OutId> },
     Next { out: OutId },
     PollNext { out: OutId },
     DropOut { out: OutId },
